@@ -267,3 +267,16 @@ def check(ctx):
             continue
         r5.check(p_ in schema.elements and c_ in schema.elements[p_]['children'], '<%s> inside <%s> in schema' % (c_, p_), wm.rel, 1,
                  'the writer nests <%s> in <%s>, which docs/gir-1.2.rnc does not allow' % (c_, p_))
+
+    # ------------------------------------------------------------------ R6 conditions shared with C05 / C06
+    r6 = ctx.rule('R6', 'what stays introspectable only references introspectable types (C05.R3); the validator accepts what the compiler writes (C06.R7)', floor=2)
+    val = py.func('introspectablepass', 'IntrospectablePass.validate')
+    walks = [P.src(c.args[0]) for c in P.calls_in(val) if P.src(c.func) == 'self._namespace.walk' and c.args]
+    n_prop = walks.count('self._introspectable_callable_analysis')
+    r6.check(n_prop >= 2, 'callable introspectability propagated twice', 'giscanner/introspectablepass.py', val.lineno,
+             'validate() runs _introspectable_callable_analysis %d time(s): a method visited before the callback type it uses stays introspectable while the callback '
+             'becomes introspectable="0", and g-ir-compiler fails with "type reference not found"' % n_prop, detail=n_prop)
+    gt = ctx.c.tu('girepository/gitypelib.c')
+    vi = gt.func('validate_interface_blob')
+    r6.check('entry->blob_type!=BLOB_TYPE_INTERFACE&&entry->blob_type!=BLOB_TYPE_OBJECT' in ns(gt.text_of(vi)), 'validator accepts class prerequisites', 'girepository/gitypelib.c', gt.line(vi),
+             'validate_interface_blob rejects an interface whose prerequisite is a class: the compiler builds the typelib and then aborts in its own validation')
